@@ -34,6 +34,18 @@ FRAMES = [
      "process() does not unwrap the match of the text after #define"),
     ("src/compile.rs", "CompilerState", "compile_statement_ex", [r"parse_calc\([^;]*\)\?\s*as\s+u32"], "C16,C03", "asm-size-checked-not-cast",
      "the size written in an asm statement is not cast from the calculator's i32 unchecked (a negative size becomes 4 billion bytes and overflows the branch distances)"),
+    ("src/compile.rs", "CompilerState", "compile_var_decl", [r"\.parse::<u32>\(\)\s*\.unwrap\(\)", r"parse_calc\([^;]*\)\?\s*as\s+usize"], "C16", "declaration-numbers-checked-global",
+     "compile_var_decl neither unwraps the parse of a bank number nor casts an array size from the calculator's i32 unchecked"),
+    ("src/compile.rs", "CompilerState", "compile_func_decl", [r"\.parse::<u32>\(\)\s*\.unwrap\(\)", r"parse_calc\([^;]*\)\?\s*as\s+usize"], "C16", "declaration-numbers-checked-function",
+     "compile_func_decl neither unwraps the parse of a bank number nor casts an array size unchecked"),
+    ("src/compile.rs", "CompilerState", "compile_local_var_decl", [r"parse_calc\([^;]*\)\?\s*as\s+usize"], "C16", "declaration-numbers-checked-local",
+     "compile_local_var_decl does not cast an array size unchecked"),
+    ("src/cpp.rs", None, "process", [r"let\s+vx\s*=\s*v\.trim_start\(\)\s*;"], "C16,C08", "macro-parameter-trimmed-on-both-sides",
+     "a macro parameter is not used with its trailing blanks (it names a capture group of a regular expression)"),
+    ("src/generate/generate_statements.rs", "GeneratorState", "generate_statement", [r"mapped_lines\s*\[", r"\.truncate\(256\)"], "C16", "source-listing-indexes-and-cuts-checked",
+     "the source-listing block of generate_statement neither indexes the line table unchecked nor cuts a line at a fixed byte"),
+    ("src/generate/generate_statements.rs", "GeneratorState", "generate_included_source_code_line", [r"last_included_position\s*\+=\s*1\b"], "C16", "source-listing-position-in-bytes",
+     "the position of the source listing advances by the byte length of the character read"),
     ("src/generate/generate_statements.rs", "GeneratorState", "generate_expr", [r"-?\bl\s*\*\s*256\b"], "C16", "high-byte-offset-computed-without-overflow",
      "generate_expr does not multiply the constant of `(arr >> 8) + k` by 256 unchecked"),
 ]
@@ -53,7 +65,15 @@ def candidates(f):
         ("#define 123\nvoid main() { }\n", "#define without a name"), ("#define\nvoid main() { }\n", "#define alone"),
         ("unsigned char i;\nvoid main() { asm(\"nop\", -1); if (i) i = 1; }\n", "negative size of inline assembly before a branch"),
         ("char arr[4]; unsigned char r;\nvoid main() { r = (arr >> 8) + 16777216; }\n", "(arr >> 8) + 2^24"), ("char arr[4]; unsigned char r;\nvoid main() { r = (arr >> 8) - 16777216; }\n", "(arr >> 8) - 2^24"),
-        ("char a[4];\nvoid main() { X = a[\"abc\" + 1]; }\n", "a literal plus a constant as a subscript"))]
+        ("char a[4];\nvoid main() { X = a[\"abc\" + 1]; }\n", "a literal plus a constant as a subscript"),
+        ("bank99999999999 const char a[2] = {1,2}; void main() {}\n", "bank number that does not fit"), ("bank99999999999 void main() {}\n", "bank number of a function that does not fit"),
+        ("short a[-1]; char b; void main() { b = sizeof(a); }\n", "negative array size"),
+        ("#define MAX(a , b) ((a) > (b) ? (a) : (b))\nchar x; void main() { x = MAX(1, 2); }\n", "blank before the comma of a macro parameter list"),
+        ("#define F(a,a) a\nvoid main() { }\n", "duplicate macro parameter"), ("#define F(a,) a\nvoid main() { }\n", "empty macro parameter"))] + [
+        {"source": src, "args": ["-O0", "--insert-code"], "expect": {"panic": False}, "note": note} for src, note in (
+        ("char x;\nvoid main() {\n  x = 1; }\n", "--insert-code: statement on the last line"), ("char x; void main() { x='\u20ac';x='\u20ac';\n}\n", "--insert-code: multi-byte character"),
+        ("char x,xx,xxx; void main() {\n" + "x=1;" * 61 + "xxx='\u00e9';" + "x=2;" * 10 + "\nx=3;\nx=4;\n}\n", "--insert-code: long line cut inside a character"))] + [
+        {"source": "char x; void main() { x = 1; }\n", "args": ["-O0", "-D", opt], "expect": {"panic": False}, "note": "-D %s" % opt} for opt in ("A(=1", "A[=1")]
 
 
 def build(repo):
@@ -72,7 +92,7 @@ def build(repo):
             except Undecided:
                 pass
         hit = [w for w in forbidden if any(re.search(w if re.search(r"[\\\[\(]", w) else r"\b%s\b" % re.escape(w), t) for t in texts)]
-        fns.append("// %s::%s -- %s%s\nproof fn frame_%s() { assert(%s); //@ %s:%s\n}\n" % (impl or rel, fn, clause, " (found)" if hit else "", fn, "false" if hit else "true", tags, name))
+        fns.append("// %s::%s -- %s%s\nproof fn frame_%s_%d() { assert(%s); //@ %s:%s\n}\n" % (impl or rel, fn, clause, " (found)" if hit else "", fn, len(fns), "false" if hit else "true", tags, name))
     for rel, impl, fn, pat, tags, name, clause in REQUIRED:
         sf = SourceFile(repo, rel)
         c = sf.fn(fn, within=impl) if impl else sf.fn(fn)
